@@ -50,6 +50,13 @@ inline tainted<T_Lhs, T_Sbx> sandbox_reinterpret_cast(
   static_assert(detail::rlbox_is_wrapper_v<T_Wrap<T_Rhs, T_Sbx>> &&
                   std::is_pointer_v<T_Lhs> && std::is_pointer_v<T_Rhs>,
                 "sandbox_reinterpret_cast on incompatible types");
+  // Function pointers and data pointers are translated differently: the
+  // application side value of a tainted function pointer need not be an address
+  // in sandbox memory, so it cannot become a tainted data pointer or vice-versa
+  static_assert(std::is_function_v<std::remove_pointer_t<T_Lhs>> ==
+                  std::is_function_v<std::remove_pointer_t<T_Rhs>>,
+                "sandbox_reinterpret_cast cannot convert between function "
+                "pointers and data pointers");
 
   tainted<T_Rhs, T_Sbx> taintedVal = rhs;
   auto raw = reinterpret_cast<T_Lhs>(taintedVal.INTERNAL_unverified_safe());
